@@ -109,7 +109,7 @@ def expand_includes(text, base_dir, seen=None):
             out.append(line)
     return "\n".join(out)
 
-def build(unit, repo):
+def build(unit, repo, ambig=0):
     """returns dict(path, changes, log, pieces, toks)"""
     os.makedirs(os.path.join(CACHE, unit), exist_ok=True)
     b1, pieces, log = extraction(unit, repo)
@@ -119,7 +119,7 @@ def build(unit, repo):
     a_text = expand_includes(open(os.path.join(d, "unit.rs")).read(), d)
     a, a_trail = lex(a_text, None)
     b0, _ = lex(open(os.path.join(d, "base.rs")).read(), None)
-    merged, changes = M.merge(b0, a, b1)
+    merged, changes = M.merge(b0, a, b1, ambig)
     out_path = os.path.join(CACHE, unit, unit + ".rs")
     text = render(merged, a_trail)
     open(out_path, "w").write(text)
